@@ -1148,7 +1148,7 @@ def main():
             maxlen = 10 if T else 6
             gens = generated_descs(rng)
             for gi, gd in enumerate(gens):
-                if time.time() - B.t0 > budget * 0.45:
+                if B.spent() > budget * 0.45:
                     skip("generated blocks not reached within the time budget")
                     continue
                 try:
@@ -1215,7 +1215,7 @@ def edits_on_reactors(rng, maxlen, budget):
     B.extra["edit_targets"] = len(plan)
     for src, path, nseq in plan:
         for _ in range(nseq):
-            if time.time() - B.t0 > budget:
+            if B.spent() > budget:
                 skip("edit sequences not run within the time budget")
                 continue
             edit_case(src, SOURCES[src], path, rng.randrange(10 ** 6), rng.randint(1, maxlen))
@@ -1245,7 +1245,7 @@ def edits_on_reactors(rng, maxlen, budget):
         for rep_i in range(nseq):
             nth += 1
             first = "remove-assembly" if (not path and src != "smallest" and rep_i == 0) else kinds[nth % len(kinds)]
-            if time.time() - B.t0 > budget + 8.0:
+            if B.spent() > budget + 8.0:
                 skip("staged geometry sequences not run within the time budget")
                 continue
             t2 = time.time()
